@@ -354,6 +354,9 @@ def proof_gate(v: Verdict, prop: str, extra_props=()):
         r2 = proof_report(p2)
         ob += r2["obligations"]
         di += r2["discharged"]
+        pr["closed"] += r2["closed"]
+        pr["print_assumptions"] += r2["print_assumptions"]
+        pr["theorems"] = list(pr["theorems"]) + list(r2["theorems"])
         if not r2["ok"]:
             pr["ok"] = False
             pr["error"] = (pr.get("error") or "") + f" [{p2}: {r2.get('error')}]"
